@@ -243,6 +243,34 @@ def oracle_separately_then_together(rng):
             return 'the same conditional dual SAGE constraint gives %r in a first Problem and %r in a second one' % (first, second)
         if any(len(np.asarray(u.scalar_variable_ids).ravel()) != int(np.prod(u.shape)) for u in con.variables()):
             return 'after two compilations a Variable of the dual SAGE constraint reports more indices than components'
+        # primal SAGE constraints (ordinary and conditional, nontrivial AGE cones), compiled twice and then built into two Problems:
+        # the same system and the same value every time
+        alpha5 = np.array([[0.0, 0.0], [2.0, 0.0], [0.0, 2.0], [1.0, 1.0], [1.0, 0.0]])
+        for Xp, label in ((None, 'ordinary'), (X, 'conditional')):
+            g = cl.Variable(shape=(1,), name='st_g')
+            cp = cl.Expression([1.0 - g[0], 1.0, 1.0, -1.5, -0.5])
+            conp = cl.PrimalSageCone(cp, alpha5, Xp, 'st_primal_' + label)
+            systems = []
+            try:
+                for _ in range(3):
+                    A_, b_, K_ = cl.compile_constrained_system([conp])[:3]
+                    systems.append((np.asarray(A_.todense()), np.asarray(b_), [(co.type, co.len) for co in K_]))
+                vals = [cl.Problem(cl.MAX, g[0], [conp]).solve(verbose=False) for _ in range(2)]
+            except Exception as e:
+                return 'compiling the same %s primal SAGE constraint again raised %s %s' % (label, type(e).__name__, ' '.join(str(e).split())[:100])
+            for k in (1, 2):
+                if systems[k][2] != systems[0][2] or systems[k][0].shape != systems[0][0].shape or \
+                        not np.array_equal(systems[k][0], systems[0][0]) or not np.array_equal(systems[k][1], systems[0][1]):
+                    return ('compilation number %d of the same %s primal SAGE constraint gives another system than the first (|A_k - A_1|_1 = %s)'
+                            % (k + 1, label, float(np.abs(systems[k][0] - systems[0][0]).sum()) if systems[k][0].shape == systems[0][0].shape else 'shape'))
+            gf = cl.Variable(shape=(1,), name='st_gf')
+            fresh_p = cl.Problem(cl.MAX, gf[0], [cl.PrimalSageCone(cl.Expression([1.0 - gf[0], 1.0, 1.0, -1.5, -0.5]), alpha5, Xp, 'st_fresh_' + label)]).solve(verbose=False)
+            for k, vv in enumerate(vals):
+                if vv[0] != fresh_p[0] or (np.isfinite(fresh_p[1]) and not abs(vv[1] - fresh_p[1]) <= 1e-5 * (1 + abs(fresh_p[1]))):
+                    return ('Problem number %d built from an already compiled %s primal SAGE constraint solves to %r; a fresh copy solves to %r'
+                            % (k + 1, label, vv, fresh_p))
+            if any(len(np.asarray(u.scalar_variable_ids).ravel()) != int(np.prod(u.shape)) for u in conp.variables()):
+                return 'after repeated compilation a Variable of the %s primal SAGE constraint reports more indices than components' % label
     return None
 
 
